@@ -121,7 +121,24 @@ fn ll_addr(r: &mut Rng) -> Option<Ieee802154Address> {
         }
     }
 }
+/// the "almost special" dictionary of common.rs with IIDs derived from this link-layer address
+fn iphc_special(r: &mut Rng, ll: Option<Ieee802154Address>, multicast: bool) -> [u8; 16] {
+    let (ext, short) = match ll {
+        Some(Ieee802154Address::Extended(e)) => (Some(e), None),
+        Some(Ieee802154Address::Short(s)) => (None, Some(s)),
+        _ => (None, None),
+    };
+    loop {
+        let a = gen_ipv6_special(r, ext, short);
+        if (a[0] == 0xff) == multicast {
+            return a;
+        }
+    }
+}
 fn iphc_unicast(r: &mut Rng, ll: Option<Ieee802154Address>) -> [u8; 16] {
+    if r.chance(1, 3) {
+        return iphc_special(r, ll, false);
+    }
     let mut a = [0u8; 16];
     match r.below(7) {
         0 => {
@@ -181,6 +198,9 @@ fn iphc_unicast(r: &mut Rng, ll: Option<Ieee802154Address>) -> [u8; 16] {
     a
 }
 fn iphc_multicast(r: &mut Rng) -> [u8; 16] {
+    if r.chance(1, 3) {
+        return iphc_special(r, None, true);
+    }
     let mut a = [0u8; 16];
     a[0] = 0xff;
     match r.below(6) {
